@@ -1,10 +1,6 @@
 package vh
 
 import (
-	"flag"
-	"fmt"
-	"os"
-
 	"pgregory.net/rapid"
 )
 
@@ -58,21 +54,4 @@ func smActions(kind string, actions map[string]func(*rapid.T), bogus func(string
 		return rapid.StateMachineActions(smB{b: &base})
 	}
 	return rapid.StateMachineActions(&smA{base})
-}
-
-func childMain() {
-	flag.Parse() // TestMain runs before the testing flags are parsed; the library reads testing.Short()
-	switch os.Getenv("VERIF_CHILD") {
-	case "fresh":
-		initWork()
-		defer os.RemoveAll(workRoot)
-		dir := EnterCaseDir()
-		cases := firstCases(1)
-		LeaveCaseDir(dir)
-		if len(cases) > 0 {
-			fmt.Println(cases[0])
-		}
-	case "crash":
-		crashChild()
-	}
 }
